@@ -233,8 +233,11 @@ Definition run_case (c : model * list ttp) : list Z :=
   let r2 := tis <- r1 ;; transform_graph (fst c) tis in
   (* hypotheses of the C01/C02 composition theorems, decided on this input;
      and the conclusion of C01 on the model's result *)
-  let hyp := forallb wf_sgb (m_subgraphs (fst c)) && uids_okb (fst c) in
-  let concl := match r2 with Ok m' => forallb wf_sgb (m_subgraphs m') | Err _ => true end in
+  let hyp := forallb wf_sgb (m_subgraphs (fst c)) && uids_okb (fst c)
+             && forallb names_uniqueb (m_subgraphs (fst c)) in
+  let concl := match r2 with
+               | Ok m' => forallb wf_sgb (m_subgraphs m') && forallb names_uniqueb (m_subgraphs m')
+               | Err _ => true end in
   flat (JL [Jres (Jlist J_tinsts) r1; Jres J_model r2; JB hyp; JB concl]).
 '''
 
@@ -256,10 +259,19 @@ def gen_cases(rng, n):
   ship = gr.shipped()
   for k in range(n):
     fan = rng.choice([3, 3, 4]) if k % 9 == 4 else 0
-    mb, info = gg.gen_model(rng, max_ops=rng.choice([3, 5, 8, 10]), fanout=fan)
+    alias = (k % 9 == 7)     # directed: one tensor under two graph outputs x static recipe
+    gg.DUP_PROB = 1.0 if alias else 0.06
+    try:
+      mb, info = gg.gen_model(rng, max_ops=rng.choice([3, 5, 8, 10]), fanout=fan)
+    finally:
+      gg.DUP_PROB = 0.06
     for trial in range(2):
       qt = quantizer.Quantizer(bytearray(mb))
-      if fan and trial == 0:
+      if alias and trial == 0:
+        name = rng.choice(['default_a8w8_recipe', 'default_a16w8_recipe'])
+        qt.load_quantization_recipe(copy.deepcopy(ship[name]))
+        desc = name
+      elif fan and trial == 0:
         desc = gr.apply_rules(qt, gr.fanout_rules(rng, mb))
         if not desc:
           continue
